@@ -195,8 +195,103 @@ def _cell(env, fam, which, pos, tkind, entry, kind, wrap, args):
     return finish(True, True)
 
 
+KEY_KINDS = ["int-key", "none-key", "tuple-key", "float-key", "bool-key", "dot-key"]
+KEY_ENTRIES = ["setitem", "setdefault", "setdefault_nodefault", "update_map", "update_map_mixed", "update_pairs", "update_pairs_tuple", "update_pairs_iter", "update_pairs_mixed", "reset", "ctor"]
+KEY_POS = ["root", "nested-dict", "dict-in-list"]
+
+
+def bad_key(kind):
+    return {"int-key": 1, "none-key": None, "tuple-key": (1, 2), "float-key": 1.5, "bool-key": True, "dot-key": "a.b"}[kind]
+
+
+def badkey(pi: int, ei: int, ki: int) -> bool:
+    """The forbidden item is the KEY the entry point is called with (not a key somewhere
+    inside a value).
+    post: _
+    """
+    env = get_env().reset()
+    fam, which = PARTS[hlib.PART % len(PARTS)]
+    pos = pick(KEY_POS, pi)
+    entry = pick(KEY_ENTRIES, ei)
+    kind = pick(KEY_KINDS, ki)
+    if pos is None or entry is None or kind is None:
+        return finish(False, True)
+    if kind == "dot-key" and not fam.attr:
+        return finish(False, True)
+    if (pos == "dict-in-list") != (which == "list"):
+        return finish(False, True)
+    if entry == "ctor" and pos != "root":
+        return finish(False, True)
+    return ops.native(_badkey_cell, env, fam, which, pos, entry, kind)
+
+
+def _badkey_cell(env, fam, which, pos, entry, kind):
+    cls = fam.cls(which)
+    k = bad_key(kind)
+    raised = None
+    if entry == "ctor":
+        try:
+            fam.make(env, "dict", "r", data={k: 0, "ok": 1})
+        except hlib.Crash:
+            raise
+        except Exception as e:
+            raised = e
+        case(cls.__name__, pos, entry, kind)
+        if raised is None or not isinstance(raised, (TypeError, ValueError)):
+            return finish(True, fail(lambda: f"{fam.D.__name__}(data={{{k!r}: 0, 'ok': 1}}) -> {raised!r}"))
+        return finish(True, fam.read(env, "r") is MISSING or fail(lambda: "a rejected constructor wrote to the backend"))
+    doc = {"p": 0, "nd": {"p": 0}} if which == "dict" else [{"p": 0}, 0]
+    fam.write(env, "r", doc)
+    obj = fam.make(env, which, "r")
+    obj()
+    t = obj if pos == "root" else (obj["nd"] if pos == "nested-dict" else obj[0])
+    before = plain(obj._to_base())
+    try:
+        if entry == "setitem":
+            t[k] = 0
+        elif entry == "setdefault":
+            t.setdefault(k, 0)
+        elif entry == "setdefault_nodefault":
+            t.setdefault(k)
+        elif entry == "update_map":
+            t.update({k: 0})
+        elif entry == "update_map_mixed":
+            t.update({"ok": 1, k: 0})
+        elif entry == "update_pairs":
+            t.update([(k, 0)])
+        elif entry == "update_pairs_tuple":
+            t.update(((k, 0),))
+        elif entry == "update_pairs_iter":
+            t.update(iter([(k, 0)]))
+        elif entry == "update_pairs_mixed":
+            t.update([("ok", 1), (k, 0)], z=2)
+        elif entry == "reset":
+            t.reset({k: 0, "ok": 1})
+    except hlib.Crash:
+        raise
+    except Exception as e:
+        raised = e
+    case(cls.__name__, pos, entry, kind)
+    mem_bad = forbidden_in(obj, fam.attr)
+    res = fam.read(env, "r")
+    res_bad = forbidden_in(res, fam.attr) if res is not MISSING else None
+    label = f"{cls.__name__} {pos}.{entry} with the key {k!r}"
+    if raised is None:
+        return finish(True, fail(lambda: f"{label}: accepted (memory: {mem_bad}, backend now {res!r})"))
+    if mem_bad or res_bad:
+        return finish(True, fail(lambda: f"{label}: rejected with {raised!r} but forbidden data stayed: memory {mem_bad}, backend {res_bad}"))
+    if not isinstance(raised, (TypeError, ValueError)):
+        return finish(True, fail(lambda: f"{label}: raised {raised!r}, not a TypeError/ValueError"))
+    if entry in ("setitem", "setdefault", "setdefault_nodefault", "update_map", "update_pairs", "update_pairs_tuple", "update_pairs_iter"):
+        after = plain(obj._to_base())
+        if not same_tree(after, before) or not same_tree(res, before):
+            return finish(True, fail(lambda: f"{label}: rejected single-element operation changed content: memory {after!r}, backend {res!r}, before {before!r}"))
+    return finish(True, True)
+
+
 def plan(tier):
-    return [{"fn": "reject", "nparts": len(PARTS), "timeout": 300 if tier == "quick" else 1500}]
+    t = 300 if tier == "quick" else 1500
+    return [{"fn": "reject", "nparts": len(PARTS), "timeout": t}, {"fn": "badkey", "nparts": len(PARTS), "timeout": t}]
 
 
 def smoke(tier):
@@ -205,6 +300,11 @@ def smoke(tier):
         for pi in range(3):
             for ei in range(0, 12, 2):
                 out.append(("reject", (pi, ei, (pi + ei + part) % 8, (ei + part) % 10), part, len(PARTS)))
+        for ei in range(len(KEY_ENTRIES)):
+            for ki in range(len(KEY_KINDS)):
+                out.append(("badkey", (0 if part % 2 == 0 else 2, ei, ki), part, len(PARTS)))
+                if part % 2 == 0:
+                    out.append(("badkey", (1, ei, ki), part, len(PARTS)))
     return out
 
 
@@ -229,6 +329,7 @@ FUNCTIONS = [
     "synced_collections.data_types.synced_list:SyncedList._update",
 ]
 BOUNDS = {"quick": {"classes": 18, "positions": POSITIONS, "entry_points": {"dict": DICT_ENTRIES, "list": LIST_ENTRIES}, "invalid_kinds": KINDS, "item_position_in_argument": [w[0] for w in WRAPS]}}
+BOUNDS["quick"]["key_level"] = {"entries": KEY_ENTRIES, "key_kinds": KEY_KINDS, "positions": KEY_POS}
 BOUNDS["thorough"] = BOUNDS["quick"]
 ASSUMPTIONS = [
     "Zarr collections take a pluggable object codec and carry no JSON-format validator by design: non-JSON *values* are not counted as forbidden for ZarrDict/ZarrList (non-string keys are)",
